@@ -1,4 +1,5 @@
 """C07 — parallel TSC equals serial TSC under every thread schedule (DESIGN.md §7 C07)."""
+from vcommon import pure
 import os
 
 # must precede the first numba import in this process
@@ -126,7 +127,7 @@ def impl_rows(tsc, g, axis, x, off):
     pos[0, axis] = x
     grid = RecGrid(shape)
     try:
-        scatter_py = getattr(tsc._tsc_scatter, 'py_func', None) or _REAL_SCATTER_PY[0]
+        scatter_py = pure(tsc._tsc_scatter) if hasattr(tsc._tsc_scatter, 'py_func') else _REAL_SCATTER_PY[0]
         scatter_py(pos, grid, float(g), weights=None, offset=float(off))
     except IndexError as e:
         res = ('oob', str(e))
@@ -374,7 +375,7 @@ def oracle_all(ctx, tsc, accepted):
 
 def phases_corr(ctx, tsc):
     rng = ctx.rng
-    pyf = tsc._tsc_parallel.py_func
+    pyf = pure(tsc._tsc_parallel)
     todo = []
     for npart in range(1, ctx.pick(14, 40)):
         cuts = np.sort(rng.integers(0, 7, npart - 1)) if npart > 1 else np.array([], dtype=np.int64)
@@ -424,9 +425,9 @@ def oracle_concurrent_rows(ctx, tsc):
     failing input (configuration, the two iterations, the shared rows)."""
     import numba
     rng = ctx.rng
-    pyf = tsc._tsc_parallel.py_func
+    pyf = pure(tsc._tsc_parallel)
     real_prange, real_scatter = numba.prange, tsc._tsc_scatter
-    _REAL_SCATTER_PY[0] = real_scatter.py_func
+    _REAL_SCATTER_PY[0] = pure(real_scatter)
     state = {'loop': -1, 'it': None}
     rows_of = {}
     cur = {}
@@ -575,7 +576,7 @@ def run_whole(ctx, tsc, c, safe_first):
     if safe_first:
         # Python-level _tsc_parallel first: an out-of-range starts index raises instead of reading stray memory
         real = tsc._tsc_parallel
-        tsc._tsc_parallel = real.py_func
+        tsc._tsc_parallel = pure(real)
         try:
             got = call(c['nthread'], c['npartition'], c['sort'])
         except ValueError:
@@ -584,6 +585,10 @@ def run_whole(ctx, tsc, c, safe_first):
         except IndexError as e:
             ctx.fail('tsc_parallel raised IndexError on an accepted configuration', c, str(e)[:200], 'the single-thread grid',
                      key='tsc:starts-oob')
+            return
+        except Exception as e:   # noqa: BLE001
+            ctx.fail('tsc_parallel raised on an accepted configuration', c, '%s: %s' % (type(e).__name__, str(e)[:200]),
+                     'the single-thread grid', key='tsc:exception')
             return
         finally:
             tsc._tsc_parallel = real
@@ -712,7 +717,7 @@ def replay(ctx, doc):
     elif kind == 'phases':
         rs = RecArr(c['starts'])
         try:
-            tsc._tsc_parallel.py_func(np.zeros((6, 3)), rs, np.zeros((8, 2, 2)), 8.0, None, 0.0)
+            pure(tsc._tsc_parallel)(np.zeros((6, 3)), rs, np.zeros((8, 2, 2)), 8.0, None, 0.0)
             print('starts indices read:', rs.log)
         except IndexError as e:
             ctx.fail('_tsc_parallel reads past the end of starts', c, str(e), 'in range', key='tsc:starts-oob')
